@@ -88,7 +88,8 @@ def cases(draw):
                       'cut_chars': cut, 'late': late})
         if eof:
             break
-    return {'enc': 'utf-8' if text_mode else None, 'maxread': draw(st.sampled_from([2000, 2000, 3])), 'calls': calls}
+    return {'enc': 'utf-8' if text_mode else None, 'maxread': draw(st.sampled_from([2000, 2000, 3])), 'calls': calls,
+            'kind': draw(st.sampled_from(['pipe', 'pipe', 'pty']))}
 
 
 class ChunkLog(object):
@@ -146,7 +147,14 @@ def do_call_args(c, text_mode, sp):
 
 def check_case(case, col=None):
     text_mode = case['enc'] is not None
-    r, w = os.pipe()
+    if case.get('kind') == 'pty':
+        # a pty pair: the harness is the child (slave in raw mode); end of stream arrives as EIO on the master,
+        # i.e. through connection_lost() instead of eof_received()
+        import tty
+        r, w = os.openpty()
+        tty.setraw(w)
+    else:
+        r, w = os.pipe()
     w_open = [True]
     log = ChunkLog()
     kw = {'maxread': case['maxread'], 'timeout': 5}
@@ -322,6 +330,7 @@ def check_case(case, col=None):
             col.label('data-during-await')
         if any((x[1] == 'EOF' or x[2]['after'] == 'EOF') for x in results):
             col.label('EOF-reached')
+        col.label('transport=' + case.get('kind', 'pipe'))
         if any((x[1] == 'TIMEOUT' or x[2]['after'] == 'TIMEOUT') for x in results):
             col.label('TIMEOUT-on-silence')
         col.case(case, nt)
